@@ -39,6 +39,8 @@ k_, q_ = z3.Ints("k q")
 LIBX = {nm: Builtin("class:" + nm) for nm in ("LossODE", "SystemLossODE", "LossPDEStatio", "LossPDENonStatio", "SystemLossPDE",
                                              "HYPERPINN", "SPINN")}
 LIBX["partial"] = lambda ex, a, k, pc: (lambda ex_, a2, k2, pc2: a2[0])     # decorators are no-ops
+# the NaN test of a parameter tree: an unconstrained Boolean of the parameters (the schedule must not depend on it)
+LIBX["_check_nan_in_pytree"] = lambda ex, a, k, pc: z3.Bool("parameters_contain_a_nan")
 
 
 def store(name, shape):
@@ -728,10 +730,13 @@ def native_trigger_returns_params():
     g = DataGeneratorODE(jax.random.PRNGKey(0), 20, 0.0, 1.0, 2, "uniform", rp, 4)
     g, ft, ff = init_rar(g)
     p_in = Params(nn_params=None, eq_params={"a": jnp.array([1.5, jnp.nan, -jnp.inf])})
-    _, p_out, _ = trigger_rar(0, loss, p_in, g, ft, ff)
+    _, p_out, g_out = trigger_rar(0, loss, p_in, g, ft, ff)
     a_in, a_out = np.asarray(p_in.eq_params["a"]), np.asarray(p_out.eq_params["a"])
     if not np.array_equal(a_in, a_out, equal_nan=True):
         return [f"trigger_rar returns parameters {a_out.tolist()} for the parameters {a_in.tolist()} it was given"]
+    if int(g_out.rar_iter_nb) != 1:
+        return ["scheduled refinement step (iteration 0 = start_iter, period 1, room for a full set) with parameters that contain a NaN: "
+                f"the step did not happen ({int((np.asarray(g_out.p_times) != 0).sum())} active times, expected 6): the schedule depends on the parameters"]
     return None
 
 
